@@ -90,6 +90,10 @@ T += ["r.c.anything(lower(r.s))", "unknown_name(upper(r.s))", "eval(lower(r.s))"
 for _nm in NAMESPACE_NAMES:
     T += ["any(%s('string') for %s in [r.c.fire])" % (_nm, _nm), "any(%s.fire() for %s in [r.c])" % (_nm, _nm),
           "any(any(%s() for _j in [1]) for %s in (r.c.fire,))" % (_nm, _nm)]
+    # loop targets that unpack: flat, nested, list-shaped, starred
+    T += ["any(%s('string') for _x, %s in [(1, r.c.fire)])" % (_nm, _nm), "any(%s('string') for _x, (%s, _y) in [(1, (r.c.fire, 2))])" % (_nm, _nm),
+          "any(%s('string') for [%s] in [[r.c.fire]])" % (_nm, _nm), "any(%s[0]('string') for *%s, in [(r.c.fire,)])" % (_nm, _nm),
+          "any(%s.fire() for (_x, [_y, (%s,)]) in [(1, [2, (r.c,)])])" % (_nm, _nm)]
 
 CONTEXTS = {
     "bare": "%s", "cmp-l": "%s == 1", "cmp-r": "1 == %s", "and": "%s and True", "or": "%s or False", "not": "not %s", "binop": "%s + 1",
@@ -110,7 +114,7 @@ def classify(expr):
         tree = ast.parse(expr, mode="eval")
     except SyntaxError:
         return "refused"
-    bound = {g.target.id for n in ast.walk(tree) if isinstance(n, ast.GeneratorExp) for g in n.generators if isinstance(g.target, ast.Name)}
+    bound = {x.id for n in ast.walk(tree) if isinstance(n, ast.GeneratorExp) for g in n.generators for x in ast.walk(g.target) if isinstance(x, ast.Name)}
     for node in ast.walk(tree):
         if isinstance(node, ast.Lambda):
             return "refused"
